@@ -18,6 +18,7 @@ import (
 	"strconv"
 	"strings"
 	"sync"
+	"sync/atomic"
 	"time"
 )
 
@@ -123,6 +124,7 @@ func (r *Run) Cap(s string) {
 		}
 	}
 	r.P.Caps = append(r.P.Caps, s)
+	capped.Store(true)
 }
 
 // Note adds a free-text note to the evidence.
@@ -227,6 +229,7 @@ func (r *Run) Merge(p *Partial) {
 		if !dup {
 			r.P.Caps = append(r.P.Caps, c)
 		}
+		capped.Store(true)
 	}
 	r.P.Notes = append(r.P.Notes, p.Notes...)
 }
@@ -487,14 +490,14 @@ func (r *Run) Finish(ev Evidence) {
 	}
 	wall := time.Since(r.Start).Seconds()
 	doc := map[string]any{
-		"property_id": r.Prop,
-		"tier":        r.Tier,
-		"seed":        r.Seed,
-		"level":       ev.Level,
-		"coverage":    cov,
-		"assumptions": ev.Assumptions,
-		"wall_s":      float64(int(wall*100)) / 100,
-		"violations":  newViol,
+		"property_id":        r.Prop,
+		"tier":               r.Tier,
+		"seed":               r.Seed,
+		"level":              ev.Level,
+		"coverage":           cov,
+		"assumptions":        ev.Assumptions,
+		"wall_s":             float64(int(wall*100)) / 100,
+		"violations":         newViol,
 		"known_findings_hit": knownHit,
 	}
 	b, _ := json.MarshalIndent(doc, "", " ")
@@ -521,9 +524,19 @@ func (r *Run) Finish(ev Evidence) {
 
 // Fatal reports a harness error (never a violation) and exits 2.
 func Fatal(format string, a ...any) {
+	// An anti-vacuity assertion ("vacuous: ...") only makes sense for a run that was allowed to finish: when a budget
+	// or cap cut the exploration short (the run ends with exhaustive:false, exit 0) a family that was never reached
+	// is not a harness error.
+	if capped.Load() && strings.HasPrefix(format, "vacuous") {
+		fmt.Fprintf(os.Stderr, "NOTE: anti-vacuity assertion not applied to a capped run: "+format+"\n", a...)
+		return
+	}
 	fmt.Fprintf(os.Stderr, "HARNESS-ERROR: "+format+"\n", a...)
 	os.Exit(2)
 }
+
+// capped is set as soon as any cap is recorded in this process (directly or merged from a worker).
+var capped atomic.Bool
 
 // Key renders any value to a compact canonical JSON string (maps are sorted by encoding/json).
 func Key(v any) string {
